@@ -135,7 +135,14 @@ def r17b(run):
             and unparse(n.ast.targets[0]) == FLAG and isinstance(n.ast.value, ast.Constant) and n.ast.value.value is True]
     sets += [n for n, c in fa.all_calls() if isinstance(c.func, ast.Attribute) and unparse(c.func.value) == FLAG
              and c.func.attr in ("append", "add")]
-    ok = bool(sets) and all(any(unparse(a) == EVAL and p for a, p in fa.facts.atoms_at(n)) for n in sets)
+    def _under_eval(n) -> bool:
+        if any(unparse(a) == EVAL and p for a, p in fa.facts.atoms_at(n)):
+            return True
+        # on every class of paths reaching the statement (the evaluation may sit in a helper whose verdict is tested)
+        pf = fa.paths_all()
+        ds = pf.disjuncts_at(n)
+        return bool(ds) and all(d.get(EVAL) is True for d in ds)      # a collapsed node has lost the literal: fails safe
+    ok = bool(sets) and all(_under_eval(n) for n in sets)
     run.check("R17b", f, "`resolved` is set for every successfully evaluated reference", ok, construct="resolved flag",
               message="`resolved = True` is not set under `ref.__forward_evaluated__`")
     # a reference leaves the pending table only once evaluated: a guarded pop, or a pop over a list that the worker
@@ -162,8 +169,7 @@ def r17b(run):
                             pname = f.params[idx + 1] if len(f.params) > idx + 1 else None
                             apps = [(n3, c3) for n3, c3 in fa.all_calls() if call_attr(c3) == "append"
                                     and unparse(c3.func.value) == pname]
-                            ok = bool(apps) and all(any(unparse(a) == EVAL and p
-                                                        for a, p in fa.facts.atoms_at(n3)) for n3, c3 in apps)
+                            ok = bool(apps) and all(_under_eval(n3) for n3, c3 in apps)
                 run.check("R17b", m, "a reference leaves the pending table only once evaluated", ok, construct="pending table",
                           message=f"`{unparse(c)}` in {m.name} is not tied to the evaluated flag", node=c)
     run.floor("R17b", "removals from the pending table", pops_total, 1)
